@@ -3371,6 +3371,23 @@ struct StopTask {
     pub hardness: bool,
 }
 
+/// verification hook (`--cfg sozu_verif`): runs the real `StopTask::on_finish` for an
+/// out-of-tree replay test (the task type and this module are private). No logic here.
+#[cfg(sozu_verif)]
+pub fn verif_stop_task_on_finish(
+    server: &mut Server,
+    client: &mut ClientSession,
+    hardness: bool,
+    timed_out: bool,
+) {
+    let task = Box::new(StopTask {
+        client_token: client.token,
+        gatherer: DefaultGatherer::default(),
+        hardness,
+    });
+    task.on_finish(server, &mut Some(client), timed_out);
+}
+
 /// stop the main process and workers, true for hard stop
 fn stop(server: &mut Server, client: &mut ClientSession, hardness: bool) {
     let (verb, counter) = audit_verb!("sozu_stop_requested");
